@@ -1,13 +1,13 @@
 #!/bin/sh
 # Runs each check against each seeded change (scratch copy of /repo outside /repo and /verif).
 # usage: run_seeded.sh [id ...]
-cd /verif
-IDS="$@"; [ -z "$IDS" ] && IDS=$(ls seeded)
+cd "$(dirname "$0")/.."; V=$(pwd)
+IDS="$@"; [ -z "$IDS" ] && IDS=$(ls seeded | grep -v benign)
 for id in $IDS; do
   prop=$(echo $id | cut -c1-3)
   D=$(mktemp -d /tmp/seed.XXXXXX)
   cp -r /repo/chartparse "$D/chartparse"
-  (cd "$D" && patch -p1 -s < /verif/seeded/$id/patch.diff) || { echo "$id: patch failed"; rm -rf "$D"; continue; }
+  (cd "$D" && patch -p1 -s < $V/seeded/$id/patch.diff) || { echo "$id: patch failed"; rm -rf "$D"; continue; }
   out=$(CHARTPARSE_REPO="$D" ./check $prop 2>/dev/null | grep -E "VIOLATION|level=" | sed "s#$D#<scratch>#g")
   echo "== $id"; echo "$out"
   rm -rf "$D"
